@@ -16,12 +16,18 @@ def run(tier, seed):
     mc = [tlc_mc("MC_Reassembly.tla", "MC_Reassembly.cfg", workers=4)]
     sched = f"{w}/schedules.ndjson"
     g = tlc_gen("MC_Reassembly.tla", cfg_for(tier, "Gen_Reassembly.cfg"), "SCHEDULE", sched, name="c08_gen")
+    # six fragments: sampled (TLC simulation mode), as the property's quantifier says
+    sched6 = f"{w}/schedules6.ndjson"
+    g6 = tlc_gen("MC_Reassembly.tla", "Gen_Reassembly_6.cfg", "SCHEDULE", sched6, name="c08_gen6",
+                 simulate=f"-simulate num={150 if quick else 3000} -depth 12 -seed {seed}")
+    with open(sched, "a") as f:
+        f.write(open(sched6).read())
     r1 = vhr(["reassembly", "--layouts", lay, "--templates", tp, "--in", sched], 2 if quick else 12, seed, tier, name="c08")
     v.add_report(r1, "delivery schedules")
     nviol, _ = v.finish()
-    cov = std_cov(st + mc + [g], [r1], {
+    cov = std_cov(st + mc + [g, g6], [r1], {
         "rule": "one case = one delivery schedule enumerated by TLC (every permutation of 2..4 (quick) / 2..5 (thorough) fragments and every "
-                "single duplication at every later position) x protocol variant (Valve Source split, Valve GoldSrc split, GameSpy 1 parts, "
+                "single duplication at every later position; six fragments sampled by TLC's simulation mode) x protocol variant (Valve Source split plain and bzip2-compressed, Valve GoldSrc split, GameSpy 1 parts, "
                 "GameSpy 3 packets, Unreal 2 lists) with a random response and random fragment boundaries; distinct by (k, mode, order)",
         "exhaustive": True})
     write_evidence(PID, tier, seed, "model_checking", cov, time.time() - t0, nviol,
